@@ -74,8 +74,10 @@ Definition ok (c : list nop * list dedge) : bool := des_eqb (fold_left nstep (fs
     # called k + 1 times; presence after each call is compared bit for bit with the model, and with the stated duration (present iff j < k)
     from fractions import Fraction as F_
     fterms, fmetas, overrun = [], [], []
+    import random as _random
+    frng = _random.Random(ctx.seed * 7919 + 14)      # its own stream: the other probes keep their cases
     for dtf in [F_(1, 10), F_(1, 12), F_(1, 52), F_(1, 20), F_(1, 5), F_(1, 4), F_(1, 2), F_(1)]:
-        for k in (range(1, 9) if ctx.tier != 'quick' else rng.sample(range(1, 9), 4)):
+        for k in (range(1, 9) if ctx.tier != 'quick' else frng.sample(range(1, 9), 4)):
             dt = float(dtf); dur = float(k * dtf)
             sim = ss.Sim(n_agents=4, networks=ss.RandomNet(n_contacts=0), diseases=ss.SIS(), dt=dt, verbose=0, rand_seed=k)
             sim.init(); net = sim.networks.randomnet
@@ -210,13 +212,13 @@ def run_level(ctx, ss):
         for dname, mkd in demog.items():
             if nname == 'maternal' and dname != 'pregnancy-deaths': continue
             if not ctx.thorough and dname == 'none' and nname not in ('random', 'static'): continue
-            for rep in range(ctx.n(1, 5)):
+            for rep in range(ctx.n(4, 8) if nname == 'maternal' else ctx.n(1, 5)):      # deaths of a mother / child with a live maternal edge are rare: more runs
                 seed = rng.randrange(1, 10**4)
                 net = mknet()
                 key = net[0].name if isinstance(net, list) else net.name
                 betas = {n_.name: 0.05 for n_ in (net if isinstance(net, list) else [net])}
                 try:
-                    sim = ss.Sim(n_agents=80, diseases=ss.SIS(beta=betas, init_prev=0.2), networks=net, demographics=mkd(), interventions=NetProbe(name='netprobe'),
+                    sim = ss.Sim(n_agents=160 if nname == 'maternal' else 80, diseases=ss.SIS(beta=betas, init_prev=0.2), networks=net, demographics=mkd(), interventions=NetProbe(name='netprobe'),
                                  dur=8, dt=rng.choice([1.0, 0.5]), rand_seed=seed, verbose=0)
                     with AppendWatch(ss) as aw:
                         sim.run()
